@@ -202,7 +202,8 @@ def r3(rep, prog):
     # the spawned pool is only used by schedule_task
     sp = [(b, bi, t) for (b, bi, t) in prog.who_calls(prog.names(r"^rayon_core::thread_pool::ThreadPool::spawn$"))]
     callers = sorted({b.id for b, _, _ in sp})
-    rep.check(set(callers) == {SU + "SegmentUpdater::schedule_task", SU + "SegmentUpdater::start_merge"}, R, "ThreadPool::spawn callers",
+    opt = {"tantivy::core::executor::Executor::spawn_blocking"} if prog.config == "quickwit" else set()   # search-side helper of the quickwit feature
+    rep.check(set(callers) - opt == {SU + "SegmentUpdater::schedule_task", SU + "SegmentUpdater::start_merge"}, R, "ThreadPool::spawn callers",
               "schedule_task (updater pool), start_merge (merge pool)", "unexpected ThreadPool::spawn callers: %s" % callers)
 
 
